@@ -7,7 +7,8 @@ import storeprop  # noqa: E402
 
 ID = "C05"
 THEOREMS = ["c05_link_is_alias", "c05_link_keeps_attrs", "c05_write_seen_through_all_paths",
-            "c05_refused_append_unchanged"]
+            "c05_refused_append_unchanged", "c05_linked_dimension_is_alias", "c05_linked_set_dimension",
+            "c05_dimension_write_through", "c05_ticks_and_link_replace_each_other"]
 PROFILE = {"small_names": True,
            "weights": {"create": 7, "mtag": 2, "feature": 4, "append": 16, "lookup_link": 6, "set_attr": 8, "set_link": 4,
                        "remove": 2, "delete": 1, "probe_link": 2, "reopen": 0.6, "bad": 0.3, "lookup": 2}}
@@ -28,7 +29,19 @@ def predicate(h):
 
 
 def run(ctx):
-    return storeprop.run(ctx, ID, THEOREMS, "Props/C05.v", PROFILE, (30, 45), 100, 900, predicate, RULE)
+    st = storeprop.run(ctx, ID, THEOREMS, "Props/C05.v", PROFILE, (30, 45), 100, 900, predicate, RULE,
+                       extra_targets=["Pure/DimLinkCheck.vo"])
+    # the dimension clauses: range / set dimensions linked to a vector of an array
+    import dimlink
+    thorough = ctx.tier == "thorough"
+    cov = dimlink.stage(ctx, st, 1200 if thorough else 150, 18 if thorough else 14, [dimlink.alias_predicate])
+    ctx.coverage.update(cov)
+    ctx.coverage["evaluations"] += sum(cov["dimension_ops"].values())
+    ctx.coverage["rule"] += (" Dimension links: histories on a host array's range and set dimension and a target array of rank 1-2 "
+                             "(ticks incl. descending, links with every class of index specification incl. out-of-range vectors, "
+                             "unlink, unit/label through the dimension and through the target, cell writes, reopen); stored fields "
+                             "and reported ticks/unit/label/labels compared with the model after every call.")
+    return st
 
 
 def replay(ctx):
